@@ -5,6 +5,7 @@ from __future__ import annotations
 import ast
 
 from ..core import AnalysisError, Check, Scope, dotted, norm, strip_docstring, walk_no_nested
+from ..interp import Sym, SymInterp
 from ..variants import Variant
 
 MOD = "parallel.py"
@@ -133,32 +134,62 @@ class C19(Check):
         else:
             self.violated("D2", MOD, q, "same-path", lor, f"hit test, load and save use different paths: {sorted(files)}",
                           witness="the rerun never finds (or finds another key's) result")
+        # hit / miss behaviour from the path summaries (guard clauses, if/else and staging through locals all read the same)
         saves = [c for c in ast.walk(lor) if isinstance(c, ast.Call) and norm(c.func).endswith("save_fn")]
-        rets = [r for r in ast.walk(lor) if isinstance(r, ast.Return) and isinstance(r.value, ast.Tuple)]
-        miss = [r for r in rets if not any(isinstance(c, ast.Call) and norm(c.func).endswith("load_fn") for c in ast.walk(r))]
-        hit = [r for r in rets if r not in miss]
-        if not saves or not miss or not hit:
+        fnp = lor.args.args[1].arg
+        paths = [st for st, _ in SymInterp().run_function(lor, Sym()).returns]
+        cached = [st for st in paths if any(c == "cache is None" and not p_ for c, p_ in st.conds)]
+        if not cached or not saves:
             raise AnalysisError("_load_or_run: hit/miss shape not recognised")
-        saved = norm(saves[0].args[1])
-        returned = norm(miss[0].value.elts[1])
-        src = [s for s in ast.walk(lor) if isinstance(s, ast.Assign) and norm(s.targets[0]) == saved]
-        calls_fn = src and all(isinstance(s.value, ast.Call) and norm(s.value.func) == lor.args.args[1].arg for s in src)
-        if saved == returned and calls_fn:
-            self.holds("D2", MOD, q, "miss-returns-what-it-saves", saves[0], f"`{saved}` = fn(v) is both saved and returned")
+
+        def exists_decision(st):
+            for c, p_ in st.conds:
+                if c.endswith(".exists()"):
+                    n_ = ast.parse(c, mode="eval").body
+                    return norm(n_.func.value), p_
+            return None, None
+
+        miss_ok = hit_ok = True
+        seen_hit = seen_miss = False
+        keys = set()
+        why_miss = ""
+        for st in cached:
+            f_, ex = exists_decision(st)
+            ret = [e[1] for e in st.events if e[0] == "return"]
+            rt = ast.parse(ret[-1], mode="eval").body if ret else None
+            calls = [e[1] for e in st.events if e[0] == "call"]
+            if isinstance(rt, ast.Tuple) and len(rt.elts) == 2:
+                keys.add(norm(rt.elts[0]))
+                val = norm(rt.elts[1])
+            else:
+                val = "?"
+            loads = "load_fn(" in val
+            if loads:
+                seen_hit = True
+                if ex is not True or val != f"cache.load_fn({f_})":
+                    hit_ok = False
+            else:
+                seen_miss = True
+                sv = [c for c in calls if c.startswith("cache.save_fn(")]
+                # the same evaluation is saved and returned (the text fn(v) denotes one evaluation only if it was staged once)
+                staged = [s_ for s_ in ast.walk(lor) if isinstance(s_, ast.Assign) and isinstance(s_.value, ast.Call) and norm(s_.value.func) == fnp]
+                if ex is not False or len(sv) != 1 or sv[0] != f"cache.save_fn({f_}, {val})" or not val.startswith(f"{fnp}(") or not staged:
+                    miss_ok = False
+                    why_miss = f"saved `{sv[0][:60] if sv else 'nothing'}` but returned `{val}`"
+        if miss_ok and seen_miss:
+            self.holds("D2", MOD, q, "miss-returns-what-it-saves", saves[0], "the value computed once by fn(v) is both saved and returned")
         else:
-            self.violated("D2", MOD, q, "miss-returns-what-it-saves", saves[0], f"saved `{saved}` but returned `{returned}`",
+            self.violated("D2", MOD, q, "miss-returns-what-it-saves", saves[0], why_miss or "no miss path saves and returns the computed value",
                           witness="the first run and the cached rerun return different values")
-        keys = {norm(r.value.elts[0]) for r in rets}
         if len(keys) == 1:
             self.holds("D2", MOD, q, "same-key", lor, "hit and miss return the input key")
         else:
             self.violated("D2", MOD, q, "same-key", lor, f"hit and miss return different keys: {sorted(keys)}")
-        # the miss path must not return before saving; the hit path only under exists()
-        gs = [(norm(t), p) for t, p in sc.guards(hit[0])]
-        if any(t.endswith(".exists()") and p for t, p in gs):
-            self.holds("D2", MOD, q, "hit-iff-exists", hit[0], "cached value returned only when the file exists")
+        hit_nodes = [r for r in ast.walk(lor) if isinstance(r, ast.Return) and any(isinstance(c, ast.Call) and norm(c.func).endswith("load_fn") for c in ast.walk(r))]
+        if hit_ok and seen_hit:
+            self.holds("D2", MOD, q, "hit-iff-exists", hit_nodes[0] if hit_nodes else lor, "cached value returned only when the file exists")
         else:
-            self.violated("D2", MOD, q, "hit-iff-exists", hit[0], "the cached value is returned without testing that it exists")
+            self.violated("D2", MOD, q, "hit-iff-exists", hit_nodes[0] if hit_nodes else lor, "the cached value is returned without testing that it exists")
         par = mod.func("parallelise")
         body = strip_docstring(par.body)
         mk = [i for i, s in enumerate(body) if "mkdir" in norm(s) and isinstance(s, ast.If) and norm(s.test) == "cache is not None"]
